@@ -1,0 +1,25 @@
+//! Verification hooks: re-exports of private pipeline stages so that an
+//! external harness can observe intermediate results.  Compiled only with
+//! `--cfg kiki_verif`; without it this module does not exist.
+
+use crate::data::{machine::Machine, table::Table, token::Token, validated_file, KikiErr};
+use crate::pipeline::prelude::*;
+
+/// The full token list (or the lexical error) for `src`.
+pub fn tokenize_src(src: &str) -> Result<Vec<Token>, KikiErr> {
+    tokenize(src)
+}
+
+/// Runs the pipeline up to and including table construction.
+pub fn machine_and_table(
+    src: &str,
+) -> Result<(validated_file::File, Machine, Result<Table, KikiErr>), KikiErr> {
+    let tokens = tokenize(src)?;
+    let cst = parse(tokens)
+        .map_err(|unexpected| unexpected_token_or_eof_to_kiki_err(unexpected.as_ref(), src))?;
+    let ast: crate::data::ast::File = cst.into();
+    let validated = validate_ast(ast)?;
+    let machine = validated_ast_to_machine(&validated);
+    let table = machine_to_table(&machine, &validated);
+    Ok((validated, machine, table))
+}
